@@ -219,7 +219,9 @@ type dupProp struct {
 func (s *SpecValidator) validateDuplicatePropertyNames() *Result {
 	// definition can't declare a property that's already defined by one of its ancestors
 	res := pools.poolOfResults.BorrowResult()
-	for k, sch := range s.spec.Spec().Definitions {
+	definitions := s.spec.Spec().Definitions
+	for _, k := range sortedDefinitionNames(definitions) { // a stable order: this loop may stop at the first circular definition
+		sch := definitions[k]
 		if len(sch.AllOf) == 0 {
 			continue
 		}
@@ -555,8 +557,10 @@ func (s *SpecValidator) validateRequiredDefinitions() *Result {
 	// Each property listed in the required array must be defined in the properties of the model
 	res := pools.poolOfResults.BorrowResult()
 
+	definitions := s.spec.Spec().Definitions
 DEFINITIONS:
-	for d, schema := range s.spec.Spec().Definitions {
+	for _, d := range sortedDefinitionNames(definitions) { // a stable order: this loop may stop at the first error
+		schema := definitions[d]
 		if schema.Required != nil { // Safeguard
 			for _, pn := range schema.Required {
 				red := s.validateRequiredProperties(pn, d, &schema) //#nosec
@@ -835,6 +839,17 @@ func (s *SpecValidator) expandedAnalyzer() *analysis.Spec {
 		return s.expanded.Analyzer
 	}
 	return s.analyzer
+}
+
+// sortedDefinitionNames returns the names of the definitions in a stable order.
+func sortedDefinitionNames(definitions spec.Definitions) []string {
+	names := make([]string, 0, len(definitions))
+	for name := range definitions {
+		names = append(names, name)
+	}
+	sort.Strings(names)
+
+	return names
 }
 
 func deepCloneSchema(src spec.Schema) (spec.Schema, error) {
